@@ -326,7 +326,34 @@ func c16Eval(r *hx.Run, cs c16Case) {
 				return
 			}
 		}
-		// model correspondence on the decided steps
+		// model correspondence on the decided steps: step 0
+		if !hasFallback && !unlessRHS[vs.String()] && strings.HasPrefix(vs.Name, "ALERTS") {
+			named, stays := "", false
+			for _, lm := range vs.LabelMatchers {
+				if lm.Name == "alertname" && lm.Type == labels.MatchEqual {
+					named = lm.Value
+				}
+			}
+			for i, e := range entries {
+				if i > 0 && e.Rule.AlertingRule != nil && e.Rule.Error.Err == nil && e.Rule.Name() == named && e.State != discovery.Removed {
+					stays = true
+				}
+			}
+			if cs.Alert && named == "TheRule" {
+				stays = true
+			}
+			disabled := cs.Comment != "" && strings.Contains(cs.Comment, "disable") && c16CommentExempts(cs.Comment, vs)
+			snoozed := cs.Comment != "" && strings.Contains(cs.Comment, "snooze") && c16CommentExempts(cs.Comment, vs)
+			impl := "none"
+			for _, p := range problems {
+				if len(p.Diagnostics) > 0 && p.Diagnostics[0].FirstColumn == int(vs.PosRange.Start)+1 && p.Summary == "unknown alert referenced" {
+					impl = "unknown-alert"
+				}
+			}
+			b, _ := json.Marshal(map[string]any{"isAlerts": true, "alertNamed": named != "", "alertRuleStays": stays, "disabled": disabled, "snoozed": snoozed})
+			r.Op("seriesverdict\t"+string(b), impl)
+		}
+		// steps 1 and 2
 		if !hasFallback && !strings.HasPrefix(vs.Name, "ALERTS") {
 			count := 0
 			if cres, cv, err := promeval.Instant(db, "count("+vs.String()+")", now); err == nil && len(cres) > 0 {
